@@ -13,9 +13,10 @@
      `identity_preconditioner` with its guard and its element loop, `norm_2` as
      sqrt (sum |x|*|x|)  (the code writes powf(|x|, 2.0)), f64 `==`/`<=`/`<` as eqb/leb/ltb.
    * Ghost output (read by nothing in the algorithm): [g_t] = the vector whose norm the last
-     convergence test used (the recurrence residual), [g_X] = the largest 2-norm reached by any
+     convergence test used (the recurrence residual), [g_X] = (the largest 2-norm reached by any
      iterate or update term -- the quantity the drift allowance of the C08 oracle needs and
-     that is not observable from outside the solver -- and [g_exit] = which `return` was taken:
+     that is not observable from outside the solver --, the smallest |resid - tol| any convergence
+     test saw) and [g_exit] = which `return` was taken:
      0 Ok(0) at start-up, 1 Ok(i) after a full step, 3 Ok(i) at the BiCGSTAB half step,
      2 budget exhausted (the final `Err(resid)`), 10 BiCGSTAB `rho_1 == 0`, 11 BiCGSTAB `omega == 0`,
      20..25 QMR `rho == 0`, `xi == 0`, `delta == 0`, `ep == 0`, `beta == 0`, `gamma == 0`. *)
@@ -34,12 +35,19 @@ Definition norm2 (v : list F) : F :=
   sqrt (fold_left (fun acc x => acc + abs x * abs x) v zero).
 
 Inductive iresult := IOk (k : nat) | IErr (e : F).          (* Result<usize, f64> *)
-Record ghost := mkG { g_t : list F; g_X : F; g_exit : nat }.
+Record trace := mkTr { t_X : F; t_M : F }.
+Record ghost := mkG { g_t : list F; g_X : trace; g_exit : nat }.
 Definition iout := (iresult * list F * ghost)%type.         (* (Result, final x, ghost) *)
 
 Definition tmax (a b : F) : F := if ltb a b then b else a.
+Definition tmin (a b : F) : F := if ltb b a then b else a.
 (* ghost bookkeeping after `*x += u`: largest norm of an update term / of an iterate *)
-Definition track (X : F) (u x : list F) : F := tmax (tmax X (norm2 u)) (norm2 x).
+Definition track (X : trace) (u x : list F) : trace :=
+  mkTr (tmax (tmax (t_X X) (norm2 u)) (norm2 x)) (t_M X).
+(* ghost bookkeeping at a convergence test `resid <= tol`: the smallest distance |resid - tol| seen
+   (a run whose decisions are within rounding of tol is excluded from the correspondence check) *)
+Definition see (X : trace) (resid tol : F) : trace := mkTr (t_X X) (tmin (t_M X) (abs (resid - tol))).
+Definition trace0 (x : list F) (resid tol : F) : trace := mkTr (norm2 x) (abs (resid - tol)).
 
 Inductive step_out (S : Type) := Continue (s : S) | Return (o : iout).
 Arguments Continue {S} s. Arguments Return {S} o.
@@ -76,7 +84,7 @@ Definition nz (nb : F) : F := if eqb nb zero then one else nb. (* if normb == 0.
 
 (* ------------------------------------------------------------------ solve_cg (441-487) *)
 Record cg_st := mkCG { cg_x : list F; cg_r : list F; cg_p : list F; cg_z : list F;
-                       cg_rho1 : F; cg_resid : F; cg_X : F }.
+                       cg_rho1 : F; cg_resid : F; cg_X : trace }.
 
 Definition cg_body (tol normb : F) (i : nat) (s : cg_st) : res (step_out cg_st) :=
   let* z := ident_pre (cg_r s) (cg_z s) in
@@ -90,7 +98,7 @@ Definition cg_body (tol normb : F) (i : nat) (s : cg_st) : res (step_out cg_st) 
   let* x := vadd (cg_x s) u in
   let* r := vsub (cg_r s) (vscale q alpha) in
   let* resid := div (norm2 r) normb in
-  let X := track (cg_X s) u x in
+  let X := see (track (cg_X s) u x) resid tol in
   if leb resid tol then Ok (Return (IOk i, x, mkG r X 1))
   else Ok (Continue (mkCG x r p z rho resid X)).
 
@@ -103,13 +111,13 @@ Definition solve_cg (b x : list F) (max_iter : nat) (tol : F) : res iout :=
   let* r := vsub b ax in
   let normb := nz normb in
   let* resid := div (norm2 r) normb in
-  let X := norm2 x in
+  let X := trace0 x resid tol in
   if leb resid tol then Ok (IOk 0, x, mkG r X 0) else
   iloop (cg_body tol normb) cg_final max_iter 1 (mkCG x r zeros zeros one resid X).
 
 (* ------------------------------------------------------------------ solve_bicg (309-369) *)
 Record bicg_st := mkBI { bi_x : list F; bi_r : list F; bi_rr : list F; bi_z : list F; bi_zz : list F;
-                         bi_p : list F; bi_pp : list F; bi_rho2 : F; bi_err : F; bi_X : F }.
+                         bi_p : list F; bi_pp : list F; bi_rho2 : F; bi_err : F; bi_X : trace }.
 
 Definition bicg_body (itol : nat) (tol bnrm : F) (i : nat) (s : bicg_st) : res (step_out bicg_st) :=
   let* zz := ident_pre (bi_rr s) (bi_zz s) in
@@ -130,7 +138,7 @@ Definition bicg_body (itol : nat) (tol bnrm : F) (i : nat) (s : bicg_st) : res (
   let* z := ident_pre r z in
   let* err := (if itol =? 1 then div (norm2 r) bnrm else Ok (bi_err s)) in
   let* err := (if itol =? 2 then div (norm2 z) bnrm else Ok err) in
-  let X := track (bi_X s) u x in
+  let X := see (track (bi_X s) u x) err tol in
   if leb err tol then Ok (Return (IOk i, x, mkG (if itol =? 2 then z else r) X 1))
   else Ok (Continue (mkBI x r rr z zz p pp rho_1 err X)).
 
@@ -157,14 +165,14 @@ Definition solve_bicg (itol : nat) (b x : list F) (max_iter : nat) (tol : F) : r
   let '(r, bnrm, z) := st in
   let bnrm := nz bnrm in
   let* err := div (norm2 z) bnrm in
-  let X := norm2 x in
+  let X := trace0 x err tol in
   if leb err tol then Ok (IOk 0, x, mkG z X 0) else              (* the start-up test is on z for both itol *)
   iloop (bicg_body itol tol bnrm) (bicg_final itol) max_iter 1
         (mkBI x r r z zeros zeros zeros one err X).
 
 (* ------------------------------------------------------------------ solve_bicgstab (374-436) *)
 Record stab_st := mkST { st_x : list F; st_r : list F; st_p : list F; st_phat : list F; st_shat : list F;
-                         st_v : list F; st_rho2 : F; st_alpha : F; st_omega : F; st_resid : F; st_X : F }.
+                         st_v : list F; st_rho2 : F; st_alpha : F; st_omega : F; st_resid : F; st_X : trace }.
 
 Definition stab_body (rtilde : list F) (tol normb : F) (i : nat) (s : stab_st) : res (step_out stab_st) :=
   let* rho_1 := dot rtilde (st_r s) in
@@ -183,10 +191,11 @@ Definition stab_body (rtilde : list F) (tol normb : F) (i : nat) (s : stab_st) :
   let* alpha := div rho_1 rv in
   let* sv := vsub (st_r s) (vscale v alpha) in
   let* resid := div (norm2 sv) normb in
+  let X0 := see (st_X s) resid tol in
   if leb resid tol then
     let u := vscale phat alpha in
     let* x := vadd (st_x s) u in
-    Ok (Return (IOk i, x, mkG sv (track (st_X s) u x) 3))
+    Ok (Return (IOk i, x, mkG sv (track X0 u x) 3))
   else
   let* shat := ident_pre sv (st_shat s) in
   let* t := mulA shat in
@@ -195,12 +204,13 @@ Definition stab_body (rtilde : list F) (tol normb : F) (i : nat) (s : stab_st) :
   let* omega := div ts tdt in
   let u1 := vscale_l alpha phat in
   let* x := vadd (st_x s) u1 in
-  let X := track (st_X s) u1 x in
+  let X := track X0 u1 x in
   let u2 := vscale_l omega shat in
   let* x := vadd x u2 in
   let X := track X u2 x in
   let* r := vsub sv (vscale t omega) in
   let* resid := div (norm2 r) normb in
+  let X := see X resid tol in
   if ltb resid tol then Ok (Return (IOk i, x, mkG r X 1)) else
   if eqb omega zero then Ok (Return (IErr resid, x, mkG r X 11)) else
   Ok (Continue (mkST x r p phat shat v rho_1 alpha omega resid X)).
@@ -215,7 +225,7 @@ Definition solve_bicgstab (b x : list F) (max_iter : nat) (tol : F) : res iout :
   let rtilde := r in
   let normb := nz normb in
   let* resid := div (norm2 r) normb in
-  let X := norm2 x in
+  let X := trace0 x resid tol in
   if leb resid tol then Ok (IOk 0, x, mkG r X 0) else
   iloop (stab_body rtilde tol normb) stab_final max_iter 1
         (mkST x r zeros zeros zeros zeros one one one resid X).
@@ -224,7 +234,7 @@ Definition solve_bicgstab (b x : list F) (max_iter : nat) (tol : F) : res iout :
 Record qmr_st := mkQ { q_x : list F; q_r : list F; q_vt : list F; q_y : list F; q_wt : list F; q_z : list F;
                        q_p : list F; q_q : list F; q_d : list F; q_s : list F;
                        q_rho : F; q_xi : F; q_gamma : F; q_eta : F; q_theta : F; q_ep : F;
-                       q_resid : F; q_X : F }.
+                       q_resid : F; q_X : trace }.
 
 Definition qmr_exit (e : nat) (s : qmr_st) : iout := (IErr (q_resid s), q_x s, mkG (q_r s) (q_X s) e).
 Definition qmr_final := qmr_exit 2.
@@ -276,7 +286,7 @@ Definition qmr_body (tol normb : F) (i : nat) (s : qmr_st) : res (step_out qmr_s
   let* x := vadd (q_x s) d in
   let* r := vsub (q_r s) sv in
   let* resid := div (norm2 r) normb in
-  let X := track (q_X s) d x in
+  let X := see (track (q_X s) d x) resid tol in
   if leb resid tol then Ok (Return (IOk i, x, mkG r X 1)) else
   Ok (Continue (mkQ x r v_tld y w_tld z p q d sv rho xi gamma eta theta ep resid X)).
 
@@ -287,7 +297,7 @@ Definition solve_qmr (b x : list F) (max_iter : nat) (tol : F) : res iout :=
   let* r := vsub b ax in
   let normb := nz normb in
   let* resid := div (norm2 r) normb in
-  let X := norm2 x in
+  let X := trace0 x resid tol in
   if leb resid tol then Ok (IOk 0, x, mkG r X 0) else
   let rho := norm2 r in
   let xi := norm2 r in
@@ -316,19 +326,25 @@ Definition run_sparse (sv : solver) (s : sparse (SA A)) (b x : list F) (n : nat)
 Definition run_trip (sv : solver) (r c : nat) (ts : list (triplet (SA A))) (b x : list F) (n : nat) (tol : F) : res iout :=
   let* s := sp_from_triplets r c ts in run_sparse sv s b x n tol.
 
-(* canonical output: tag (0 = Ok, 1 = Err), count or error, x, the budget *)
+(* canonical output of the correspondence check: tag (0 = Ok, 1 = Err); for Ok the count and x; the budget.
+   (After Err neither the error value nor x is compared: a run that did not converge is not a
+   well-conditioned function of its input, and the property says nothing about it beyond budget 0.) *)
 Definition it_flat (fs : F -> list Z) (n : nat) (o : res iout) : list Z :=
   fl_res (fun o : iout =>
-    (match fst (fst o) with IOk k => fl_nat 0 ++ fl_nat k | IErr e => fl_nat 1 ++ fs e end)
-    ++ fl_list fs (snd (fst o)) ++ fl_nat n) o.
-(* ... followed by the ghost trace: X and the exit code (for the oracles only) *)
+    (match fst (fst o) with IOk k => fl_nat 0 ++ fl_nat k ++ fl_list fs (snd (fst o)) | IErr e => fl_nat 1 end)
+    ++ fl_nat n) o.
+(* everything, for the oracles: tag, count or error value, x, budget, then the ghost trace X, exit code, margin *)
 Definition it_flat_tr (fs : F -> list Z) (n : nat) (o : res iout) : list Z :=
-  it_flat fs n o ++ match o with Ok o => fs (g_X (snd o)) ++ fl_nat (g_exit (snd o)) | Panic _ => [] end.
+  fl_res (fun o : iout =>
+    (match fst (fst o) with IOk k => fl_nat 0 ++ fl_nat k | IErr e => fl_nat 1 ++ fs e end)
+    ++ fl_list fs (snd (fst o)) ++ fl_nat n
+    ++ fs (t_X (g_X (snd o))) ++ fl_nat (g_exit (snd o)) ++ fs (t_M (g_X (snd o)))) o.
 
 End Iter.
 
 Arguments iresult A : clear implicits.
 Arguments ghost A : clear implicits.
+Arguments trace A : clear implicits.
 Arguments iout A : clear implicits.
 Arguments Continue {A S} s.
 Arguments Return {A S} o.
